@@ -28,7 +28,10 @@ def run(ctx):
     # a separator-only query stays without words after normalisation: table keys / targets are letters or marks
     from . import r_lang as RL
     RL.table_rules(ctx, None, None, None, None, None, rule_m="R12.h")
-    return info("R12.a: the empty-query selection orders by exactly (rating desc, normalised title asc); R12.b: bounded by "
+    from . import r_word as RW
+    RW.text_is_empty_words(ctx, "R12.i")
+    return info("R12.i: Text::is_empty tests the words (a query of separators only is the empty query). "
+                "R12.a: the empty-query selection orders by exactly (rating desc, normalised title asc); R12.b: bounded by "
                 "self.limit with the R06.a selection rules; R12.c: the non-index branch is taken iff the query has no word, an "
                 "empty query passes the filter first, positions map to records; R12.d: the memoised ranking is coherent (R10.a/b); "
                 "R12.e: the rating is compared before word/char counts and descending.")
